@@ -234,3 +234,88 @@ func cmdReplay(args []string) int {
 	fmt.Println("replay passes on the current tree")
 	return 0
 }
+
+// ---- witness-corpus replay for YAML decoders (C16) ---------------------------------------------------
+
+var yamlWitnessCorpus = []string{
+	"{}", "[]", "~", "a", "''", "[~]", "[[]]", "[{}]", "{a: ~}", "{a: {}}", "{a: []}", "{a: [~]}", "{~: ~}",
+	"{sh: ~}", "{ref: ~}", "{map: ~}", "{sh: {}}", "{for: {}}", "{for: ~}", "{for: {matrix: {}}}", "{for: {matrix: ~}}",
+	"{for: {matrix: {a: ~}}}", "{for: {matrix: {a: {}}}}", "{for: {var: ~}}", "{cmd: ~}", "{task: ~}", "{defer: ~}", "{defer: {}}",
+	"{cmds: [~]}", "{cmds: [{}]}", "{deps: [~]}", "{deps: [{}]}", "{sources: [~]}", "{generates: [~]}", "{platforms: [~]}",
+	"{platforms: ['']}", "{platforms: ['/']}", "{platforms: ['a/b/c']}", "{requires: {vars: [~]}}", "{requires: {vars: [{}]}}", "{requires: ~}",
+	"{preconditions: [~]}", "{preconditions: [{}]}", "{vars: {A: {}}}", "{vars: {A: ~}}", "{env: {A: {}}}", "{vars: ~}", "{vars: []}",
+	"{includes: {a: ~}}", "{includes: {a: {}}}", "{includes: []}", "{tasks: {a: ~}}", "{tasks: {a: {}}}", "{tasks: {a: []}}", "{tasks: []}",
+	"{tasks: {a: {cmds: [{for: {}}]}}}", "{tasks: {a: {vars: {X: {}}}}}", "{tasks: {a: {sources: [~]}}}", "{tasks: {a: {platforms: [~]}}}",
+	"{output: {}}", "{output: {group: ~}}", "{output: ~}", "{prompt: [~]}", "{prompt: {}}", "{exclude: ~}", "{aliases: [~]}",
+	"{version: ~}", "{version: {}}", "{dotenv: [~]}", "{set: [~]}", "{shopt: [~]}", "{run: {}}", "{status: [~]}", "{method: []}",
+}
+
+func init() {
+	for _, k := range []string{"index", "nil-deref", "slice-bounds", "type-assert", "panic", "div-by-zero", "nil-map-store", "makeslice"} {
+		replayRegistry[k] = replaySafety
+	}
+}
+
+func replaySafety(r *PropResult, o *Obligation) *replayTemplate {
+	fn := r.W.P.Funcs[o.Func]
+	if fn == nil {
+		return nil
+	}
+	if fn.Name() == "UnmarshalYAML" && len(fn.Params) > 0 {
+		return replayYAMLDecoder(r, o)
+	}
+	if w, ok := safetyWitness[shortName(o.Func)]; ok {
+		rel, pkgName, ok := r.W.pkgRelOf(o.Func)
+		if !ok {
+			return nil
+		}
+		src := fmt.Sprintf("package %s\n\nimport \"testing\"\n\n%s\nfunc TestGvcReplay(t *testing.T) {\n\tdefer func() {\n\t\tif r := recover(); r != nil {\n\t\t\tt.Fatalf(\"GVC-REPLAY-REPRODUCED: %%v\", r)\n\t\t}\n\t}()\n%s\n}\n", pkgName, w.imports, w.body)
+		return &replayTemplate{pkgRel: rel, testName: "TestGvcReplay", src: src, what: w.what}
+	}
+	return nil
+}
+
+type witness struct{ imports, body, what string }
+
+// safetyWitness: concrete representatives for safety obligations of functions whose inputs are not YAML
+// documents (design 2.8 "witness": used only by replay, never by proof). Keyed by short function name.
+var safetyWitness = map[string]witness{}
+
+func replayYAMLDecoder(r *PropResult, o *Obligation) *replayTemplate {
+	rel, pkgName, ok := r.W.pkgRelOf(o.Func)
+	if !ok {
+		return nil
+	}
+	fn := r.W.P.Funcs[o.Func]
+	tn := shortTypeName(typeStr(deref(fn.Params[0].Type())))
+	var docs strings.Builder
+	for _, d := range yamlWitnessCorpus {
+		fmt.Fprintf(&docs, "\t\t%q,\n", d)
+	}
+	src := fmt.Sprintf(`package %s
+
+import (
+	"testing"
+
+	"gopkg.in/yaml.v3"
+)
+
+func TestGvcReplay(t *testing.T) {
+	docs := []string{
+%s	}
+	for _, d := range docs {
+		func() {
+			defer func() {
+				if r := recover(); r != nil {
+					t.Fatalf("GVC-REPLAY-REPRODUCED: decoding %%q into *%s panics: %%v", d, r)
+				}
+			}()
+			var v %s
+			_ = yaml.Unmarshal([]byte(d), &v)
+		}()
+	}
+}
+`, pkgName, docs.String(), tn, tn)
+	return &replayTemplate{pkgRel: rel, testName: "TestGvcReplay", src: src,
+		what: "a YAML document from the witness corpus makes (*" + tn + ").UnmarshalYAML panic"}
+}
